@@ -162,13 +162,15 @@ std::string vf_run(const Case &c, vf::Ctx &ctx) {
       ctx.count("class.second_pattern_in_same_storage");
     }
   }
-  // the hashed dispatch path has its own copies of the matcher: a one-port table (plus a decoy) must call the port exactly
+  // the hashed dispatch path has its own copies of the matcher: a table of the port and three decoys must call the port exactly
   // when the pattern language says the message matches
   {
     static int hits;
     hits = 0;
     rtosc::Ports table({{c.pattern.c_str(), "", nullptr, [](const char *, rtosc::RtData &) { hits++; }},
-                        {"zz_decoy:", "", nullptr, [](const char *, rtosc::RtData &) {}}});
+                        {"zz_decoy:", "", nullptr, [](const char *, rtosc::RtData &) {}},
+                        {"yd:", "", nullptr, [](const char *, rtosc::RtData &) {}},
+                        {"xdecoy/", "", nullptr, [](const char *, rtosc::RtData &) {}}});   // (a table of two names does not get a hash)
     bool pm = refmatch::path_matches(p, c.address);
     refmatch::Expect te = refmatch::types_expect(p, c.tags);
     for (int with_loc = 0; with_loc < 2; with_loc++) {
@@ -183,6 +185,7 @@ std::string vf_run(const Case &c, vf::Ctx &ctx) {
       if ((!pm || te == refmatch::MUST_NOT) && hits != 0) return std::string("Ports::dispatch ") + how + " location buffer calls port \"" + c.pattern + "\" for \"" + c.address + "\" ,\"" + c.tags + "\" although the message does not match";
     }
     ctx.count("dispatch.one_port_table");
+    { std::string path = c.pattern.substr(0, c.pattern.find(':')); size_t fs = path.find('/'); if (path.find_first_of("#{") == std::string::npos && fs != std::string::npos && fs + 1 < path.size() && path.back() == '/') ctx.count(pm && te == refmatch::MUST ? "dispatch.literal_multi_component_subtree_name.matching" : "dispatch.literal_multi_component_subtree_name.other"); }
   }
   bool special = c.pattern.find_first_of("#{") != std::string::npos || p.trailing_slash || p.has_types;
   // near-miss or hit: shares a first character with something the pattern accepts, or is accepted
